@@ -152,6 +152,27 @@ func cmdMemSize(args []string) error {
 			if hasMemFn(s.op) && s.after > s.before && 3*(s.after-s.before) > 32*s.cost {
 				cs.Oracle = append(cs.Oracle, fmt.Sprintf("C20: opcode %02x grew the memory by %d bytes for %d gas", s.op, s.after-s.before, s.cost))
 			}
+			// ... and so are the bytes an inherited instruction copies, hashes or logs
+			operand := func(i int) uint64 {
+				if i < len(s.stack) && s.stack[i].IsUint64() {
+					return s.stack[i].Uint64()
+				}
+				return ^uint64(0) >> 8
+			}
+			switch {
+			case s.op == 0x37 || s.op == 0x39 || s.op == 0x3e || s.op == 0x5e:
+				if n := operand(2); 3*n > 32*s.cost {
+					cs.Oracle = append(cs.Oracle, fmt.Sprintf("C20: opcode %02x copied %d bytes for %d gas", s.op, n, s.cost))
+				}
+			case s.op == 0x20:
+				if n := operand(1); 6*n > 32*s.cost {
+					cs.Oracle = append(cs.Oracle, fmt.Sprintf("C20: KECCAK256 hashed %d bytes for %d gas", n, s.cost))
+				}
+			case s.op >= 0xa0 && s.op <= 0xa4:
+				if n := operand(1); 8*n > s.cost {
+					cs.Oracle = append(cs.Oracle, fmt.Sprintf("C20: opcode %02x logged %d bytes for %d gas", s.op, n, s.cost))
+				}
+			}
 			if s.op >= 0x51 && s.op <= 0x53 {
 				fee := func(n uint64) uint64 { w := n / 32; return 3*w + w*w/512 }
 				if s.cost != 3+fee(s.after)-fee(s.before) {
